@@ -155,6 +155,9 @@ do_op(void)
     } else if (!strcmp(op, "tav") && ntok == 2) {
         geti(&a, tok[1]);
         printf("%x", (unsigned)two_adic_valuation(ibz_get(&a)));
+    } else if (!strcmp(op, "twoadic") && ntok == 2) {
+        geti(&a, tok[1]);
+        printf("%x", (unsigned)ibz_two_adic(&a));
     } else if (!strcmp(op, "bitsize") && ntok == 2) {
         geti(&a, tok[1]);
         printf("%x", (unsigned)ibz_bitsize(&a));
